@@ -4,6 +4,7 @@ import (
 	"fmt"
 	"os"
 	"path/filepath"
+	"sort"
 	"strings"
 )
 
@@ -181,13 +182,36 @@ func cliExit(r *Run) {
 	// Create that fails part-way: the first recovery file cannot be
 	// written because a directory of that name is in the way
 	if t.Bool(1, 8, "create-fails-midway") {
-		obst := "mid.vol00+01.par2"
-		if par1Set {
-			obst = "mid.p01"
+		// which recovery files this create writes is learnt from a
+		// fault-free run of the same command (the naming scheme is the
+		// implementation's business), then one of them is obstructed
+		clean := func() {
+			ents, _ := os.ReadDir(setDir)
+			for _, e := range ents {
+				if strings.HasPrefix(e.Name(), "mid.") {
+					os.RemoveAll(filepath.Join(setDir, e.Name()))
+				}
+			}
 		}
-		os.MkdirAll(filepath.Join(setDir, obst), 0755)
-		res := r.RunPar(setDir, "create", "mid"+ext, w.Files[0].Name)
-		check(res, "par create with an unwritable recovery file", notIn(0, 3), "not 0 and not 3 (write failure)", "fresh")
+		probe := r.RunPar(setDir, "create", "mid"+ext, w.Files[0].Name)
+		var written []string
+		if ents, err := os.ReadDir(setDir); err == nil && probe.Status == 0 {
+			for _, e := range ents {
+				if strings.HasPrefix(e.Name(), "mid.") && e.Name() != "mid"+ext {
+					written = append(written, e.Name())
+				}
+			}
+		}
+		clean()
+		if len(written) == 0 {
+			r.Count("create-fails-midway-skipped")
+		} else {
+			sort.Strings(written)
+			obst := written[t.Draw(len(written), "obstructed")]
+			os.MkdirAll(filepath.Join(setDir, obst), 0755)
+			res := r.RunPar(setDir, "create", "mid"+ext, w.Files[0].Name)
+			check(res, "par create with an unwritable recovery file", notIn(0, 3), "not 0 and not 3 (write failure)", "fresh")
+		}
 		ents, _ := os.ReadDir(setDir)
 		for _, e := range ents {
 			if strings.HasPrefix(e.Name(), "mid.") {
